@@ -1733,6 +1733,13 @@ bool SchindelhauerTMCG::TMCG_VerifyStackEquality
 			// check the size of the received stack secret
 			if (ss.size() != s.size())
 				throw false;
+			// check the range of the received masking exponents
+			for (size_t j = 0; j < ss.size(); j++)
+			{
+				if ((mpz_sgn(ss[j].second.r) < 0) ||
+					(mpz_cmp(ss[j].second.r, vtmf->q) >= 0))
+						throw false;
+			}
 			// verify equality proof
 			if (mpz_get_ui(foo) & 1UL)
 				TMCG_MixStack(s2, s4, ss, vtmf, false);
